@@ -443,6 +443,9 @@ func isDischarged(o *Obligation, v Verdict) bool {
 	return v.Status == "unsat"
 }
 
+// solvePar: queries in flight per process (a sharded check divides the cores among its workers).
+var solvePar = 10
+
 func solveAll(res *Result, timeout time.Duration, portfolio bool) {
 	res.Verdicts = make([]Verdict, len(res.Obls))
 	queries := make([]string, len(res.Obls))
@@ -450,7 +453,7 @@ func solveAll(res *Result, timeout time.Duration, portfolio bool) {
 		queries[i] = res.engine.buildQuery(o, nil)
 	}
 	var wg sync.WaitGroup
-	sem := make(chan struct{}, 10)
+	sem := make(chan struct{}, solvePar)
 	for i := range res.Obls {
 		wg.Add(1)
 		sem <- struct{}{}
@@ -461,6 +464,17 @@ func solveAll(res *Result, timeout time.Duration, portfolio bool) {
 		}(i)
 	}
 	wg.Wait()
+	// an obligation that comes back undecided may only have lost the race for the cores: decide it
+	// again on its own with three times the budget before anything is concluded from it
+	for i, o := range res.Obls {
+		v := res.Verdicts[i]
+		if v.Status == "unsat" || v.Status == "sat" || o.Kind == "canary" {
+			continue
+		}
+		r := solve(res.Harness.Name+"."+o.Name, queries[i], 3*timeout, true)
+		r.Time += v.Time
+		res.Verdicts[i] = r
+	}
 }
 
 var _ = types.Typ
